@@ -160,7 +160,7 @@ pub fn run_job<S: Service + 'static, K: Kind>(
     let seed = vlib::seed_from_env();
     let mut stats = ConcStats { executions: 0, anomalies: 0, exhausted: false, max_steps: 0, overlapping: 0 };
     let counter = Mutex::new(0u64);
-    let mut fresh = || {
+    let fresh = || {
         let mut c = counter.lock().unwrap();
         *c += 1;
         format!("{name_prefix}/{}", *c)
